@@ -89,6 +89,23 @@ pub fn jobs(ctx: &Ctx) -> Vec<Job> {
             }
         }
     }
+    // long runs: a mostly random data area in which a few whole rows (or columns) follow mask k, so that candidate
+    // k carries single-colour runs as long as the symbol is wide (N-2 with N far beyond 64, 127, 255) and is
+    // still close to the minimum: the "N-2 per run" term decides the ranking here
+    for v in ctx.tier.pick(vec![14usize, 20, 24, 28, 30, 32, 34, 36, 38, 40], (12..=40).collect()) {
+        for level in 0..4usize {
+            for i in 0..ctx.tier.pick(16u64, ctx.scale(120) as u64) {
+                k += 1;
+                let t = if i % 8 == 7 { crate::craft::TARGET_LONG_COLUMN_RUNS } else { crate::craft::TARGET_LONG_ROW_RUNS };
+                let mut j = Job::crafted(FAMS[5], crate::job::CRAFT_TARGET, t, v, level, None, mix(ctx.seed, k));
+                // feedback-directed (aux[2] = 1): the lines follow the mask the crate itself picks for the same
+                // background without them (observe() asks first), so the candidate carrying the long runs is the
+                // one that was winning: whether it still wins is decided by the run term alone
+                j.aux[2] = (i % 4 != 0) as i64;
+                jobs.push(j);
+            }
+        }
+    }
     // forced masks always override
     for v in [1usize, 5, 13, 27, 40] {
         for mask in 0..8usize {
@@ -97,6 +114,32 @@ pub fn jobs(ctx: &Ctx) -> Vec<Job> {
         }
     }
     jobs
+}
+
+/// longest single-colour run of encoding-region modules along a row of the candidate (evidence only)
+fn longest_row_run(m: &Matrix, version: usize) -> usize {
+    let map = region_map(version);
+    let mut best = 0;
+    for r in 0..m.size {
+        let mut run = 0;
+        let mut last = None;
+        for c in 0..m.size {
+            if !map.is_data(r, c) {
+                run = 0;
+                last = None;
+                continue;
+            }
+            let v = m.get(r, c);
+            if Some(v) == last {
+                run += 1;
+            } else {
+                run = 1;
+                last = Some(v);
+            }
+            best = best.max(run);
+        }
+    }
+    best
 }
 
 fn argmin(v: &[u32; 8]) -> Vec<usize> {
@@ -126,6 +169,24 @@ fn candidate_via_api(base: &adapter::Config, mask: usize, version: usize) -> Res
 }
 
 pub fn observe(ctx: &Ctx, st: &mut Stats, job: &Job, idx: usize) {
+    // feedback-directed long-run jobs: phase 1 asks the crate which mask wins for the background alone
+    // (the chosen lines follow NO mask: k_override = 8 is out of range of seed % 8 and selects plain noise)
+    let directed;
+    let job = if job.fam == FAMS[5] && job.aux[0] as usize >= crate::craft::TARGET_COUNT && job.aux[2] == 1 && job.aux[1] == 0 {
+        let mut probe = job.clone();
+        probe.aux[1] = 9; // mask index 8: background only
+        let winner = match adapter::build(&probe.config()) {
+            Outcome::Ok(q) => q.mask.map(adapter::mask_no).unwrap_or(0),
+            _ => 0,
+        };
+        let mut j = job.clone();
+        j.aux[1] = winner as i64 + 1;
+        directed = j;
+        st.count("feedback_directed_long_run_builds", 1);
+        &directed
+    } else {
+        job
+    };
     let cfg = job.config();
     st.eval();
     let exp = match symbol::expect(&cfg, &ctx.caps) {
@@ -266,6 +327,12 @@ pub fn observe(ctx: &Ctx, st: &mut Stats, job: &Job, idx: usize) {
     if job.fam == FAMS[5] {
         st.count("crafted_extreme_builds", 1);
         st.reach("crafted_targets", job.aux[0] as u64);
+        if job.aux[0] as usize >= crate::craft::TARGET_COUNT {
+            st.count("long_run_builds", 1);
+            for c in &cands {
+                st.max("max_run_length_in_a_candidate", longest_row_run(c, v) as u64);
+            }
+        }
     }
     let min_ok = argmin(&d_floor).contains(&emitted) || argmin(&d_exact).contains(&emitted);
     // diagnostics: what is the recorded ranking score equal to?
